@@ -255,7 +255,7 @@ def run(ctx):
     # date / time / timestamp strings from parts
     from senaite.astm import fields
     dts = Stream("date-strings")
-    years = ["2023", "2024", "0000", "0999", "9999", "20a3"]
+    years = ["2023", "2024", "0000", "0999", "9999", "20a3", "1900", "2000", "2100", "1700", "2400", "1600", "0400", "0100", "1996"]
     months = ["01", "02", "12", "13", "00", "1"]
     days = ["01", "28", "29", "30", "31", "32", "00"]
     hours = ["00", "12", "23", "24"]
@@ -310,6 +310,9 @@ def run(ctx):
     cands = [chr(a) for a in range(256)] + [chr(a) + chr(b) for a in range(256) for b in
                                             (list(range(256)) if ctx.thorough else [9, 32, 43, 45, 48, 57, 95, 133, 160, 65, 178])]
     cands += ["1_2_3", "1__2", "_12", "12_", "+-1", " +7 ", "0_0", "00", "-0", "+", "-", " ", "1 2", "١٢"[:0] or "12"]
+    # numbers no float holds exactly, order numbers of 17 and more digits, the usual non-integers
+    cands += ["9007199254740992", "9007199254740993", "-9007199254740993", "20241206000003643", "99999999999999999",
+              "10000000000000000000001", "123456789012345678901234567890", "12.0", "1e3", "1.5", "0x10", "1e", "inf", "nan"]
     lines = ["pyint %s" % (codecio.cps(v) or "-") for v in cands]
     model = common.drive(lines) if ctx.driver_ok else [None] * len(lines)
     fobj = fields.IntegerField(name="n")
@@ -447,6 +450,8 @@ def run(ctx):
     # what is in force for a class must not depend on which classes the process used before
     from harness.props import C20
     streams.append(C20.order_stream(ctx))
+    # ... nor on which other schemas were declared and filled in the process (lengths, codes, inner fields of their own)
+    streams.append(C20.foreign_schema_stream(ctx))
 
     streams.append(foreign_instances_stream(ctx, r))
 
